@@ -106,7 +106,6 @@ class SymMap:
 
 
 class PySet:
-    __slots__ = ('s',)
 
     def __init__(self, s=None):
         self.s = set(s) if s is not None else set()
@@ -117,7 +116,6 @@ class PySet:
 
 class SymSet:
     """set of ints as z3 Array(Int -> Bool)."""
-    __slots__ = ('m',)
 
     def __init__(self, m):
         self.m = m
